@@ -155,7 +155,7 @@ func (m *machine) classList() []string {
 	var out []string
 	for _, k := range []string{"result-races-cancel-or-close", "duplicate-result", "result-after-return", "foreign-result",
 		"parked:notify-result", "parked:notify-error", "parked:before-decode", "parked:do-wait", "parked:do-drop", "parked:in-decode",
-		"close-between-send-and-ack", "close-between-ack-and-result", "close-while-send-blocked", "cancel-after-send", "cancel-before-send", "start-after-close"} {
+		"batched-ack", "close-between-send-and-ack", "close-between-ack-and-result", "close-while-send-blocked", "cancel-after-send", "cancel-before-send", "start-after-close"} {
 		if m.classes[k] {
 			out = append(out, k)
 		}
